@@ -25,6 +25,8 @@ fn main() {
             s.require("truncated-record-present", 3000);
             s.require("file-e2e:event-refused-by-the-writer", 300);
             s.require("file-e2e:event-refused-by-the-default-json-writer", 100);
+            s.require("file-e2e:writer-ends-with-the-last-separator-byte-only", 100);
+            s.require("file-e2e:writer-writes-the-separator-itself", 100);
             // artifacts of the libFuzzer target `file_c10` (engine E6 over E3) are replayed through the same entry
             s.manual("fuzz-artifact", Vec::<Vec<u8>>::new(), |bytes, cx| {
                 cx.nontrivial(true);
